@@ -10,11 +10,12 @@ import Driver.OpsCodec
 import Driver.OpsProject
 import Driver.OpsFS
 import Driver.OpsApi
+import Driver.OpsGridFS
 open Lean
 namespace Driver
 
 def allOps : List (String × Op) :=
-  opsCompare ++ opsMatch ++ opsApply ++ opsCodec ++ opsProject ++ opsFS
+  opsCompare ++ opsMatch ++ opsApply ++ opsCodec ++ opsProject ++ opsFS ++ opsGridFS
 
 def handle (st : DState) (line : String) : DState × Json :=
   match Json.parse line with
